@@ -1272,6 +1272,28 @@ func generateScenarios(prop string, seed uint64, n int, adv bool) []*scenario {
 			out = append(out, sc)
 		case prop == "C01":
 			out = append(out, g.converge(i, s))
+		case prop == "C03" && i%12 == 11:
+			// one controller declaring the same resource at two API versions as two child kinds
+			sc := g.basic("two-versions", i, s)
+			k1 := kidSpec{APIVersion: "apps.example.com/v1", Resource: "widgets", Kind: "Widget", Namespaced: true, Method: "InPlace"}
+			k2 := kidSpec{APIVersion: "apps.example.com/v2", Resource: "widgets", Kind: "Widget", Namespaced: true, Method: "InPlace"}
+			sc.Ctl.Kids = []kidSpec{k1, k2}
+			if !sc.Ctl.ParentNamespaced {
+				sc.Ctl.ParentNamespaced, sc.Ctl.ParentResource, sc.Ctl.ParentKind = true, "things", "Thing"
+				sc.Parent["kind"] = "Thing"
+				sc.Parent["metadata"].(J)["namespace"] = "ns1"
+			}
+			app := "appv"
+			sc.Parent["spec"].(J)["selector"] = J{"matchLabels": J{"app": app}}
+			sc.Hook.Children = []J{
+				{"apiVersion": k1.APIVersion, "kind": "Widget", "metadata": J{"name": "w1", "labels": J{"app": app}}, "spec": J{"replicas": int64(1)}},
+				{"apiVersion": k2.APIVersion, "kind": "Widget", "metadata": J{"name": "w2", "labels": J{"app": app}}, "spec": J{"replicas": int64(2)}},
+			}
+			sc.Hook.FinalizeChildren = nil
+			sc.Warmup, sc.Setup = true, nil
+			sc.Rounds = []roundSpec{{}, {}}
+			sc.Features = []string{"same-resource-two-versions"}
+			out = append(out, sc)
 		case prop == "C03" && i%12 == 5:
 			// one controller instance over the whole history; the parent is deleted and re-created under
 			// the same name (new UID, generation 1 again) while its children are left behind as orphans
